@@ -191,6 +191,16 @@ def arrive (self : Nat) (ident : Nat → Nat) : Arrival → Wire
   | .conn c f => process (handleConn (ident c) f)
   | .self f => process (sendToSelf self f)
 
+/-- `Overlay.SendToTreeNode` (overlay.go, called by `TreeNodeInstance.SendTo`) from an instance of this server at
+the node with id `fromId`: the message is wrapped with the instance's own token as `From` and handed to
+`Router.Send`; for a destination node hosted by the server itself that is the send-to-self shortcut.  Which
+node an instance stands for is the peer's choice: `TransmitMsg` creates an instance for whatever node of the
+tree the destination token of a message names, hosted by this server or not. -/
+def sendToTreeNode (fromId ty val : Nat) : Frame := { ty := ty, sender := some fromId, claimed := none, val := val }
+
+/-- the arrival at the server of what one of its own instances sends to a node it hosts -/
+def localSend (fromId ty val : Nat) : Arrival := .self (sendToTreeNode fromId ty val)
+
 /-- everything the handlers/channels of the instance receive when these frames arrive, in order, on these
 connections (`ident c`: the identity connection `c` was set up with) -/
 def netRun (i : Inst) (self : Nat) (ident : Nat → Nat) (q : Queues) (evs : List Arrival) :
@@ -351,6 +361,17 @@ def step (s : State) (toks : List String) : State × String :=
       | some (a, self) =>
         let r := opStep s.inst s.st (.msg (arrive self id a))
         ({ s with st := r.1 }, showDel r.2)
+    | _, _, _, _ => (s, "bad-op")
+  -- `relay self:<k> <type> <node> <value>`: an instance of the receiving server k — made by a peer's message whose
+  -- destination token names <node> — sends to the receiving node, which the same server hosts
+  | ["relay", conn, t, snd, v] =>
+    match conn.splitOn ":", t.toNat?, snd.toNat?, v.toNat? with
+    | ["self", k], some t, some snd, some v =>
+      match k.toNat? with
+      | some k =>
+        let r := opStep s.inst s.st (.msg (arrive k id (localSend snd t v)))
+        ({ s with st := r.1 }, showDel r.2)
+      | none => (s, "bad-op")
     | _, _, _, _ => (s, "bad-op")
   | ["rereg"] => (s, "ok")   -- an equal copy of the tree is registered again: nothing changes
   | _ => (s, "bad-op")
